@@ -26,7 +26,7 @@ from hypothesis import strategies as st
 from scipy import integrate, stats
 
 import nifty.cl as ift
-from vlib import Discard, Sub, Violation, close, require
+from vlib import Discard, Sub, close, require
 from vlib import nx
 from vlib import strat as S
 
@@ -1106,12 +1106,14 @@ def check_leaf(rec):
     return dict(nontrivial=npix >= 2, classes=cl)
 
 
-_GH = np.polynomial.hermite_e.hermegauss(3)
+_GH = {k: np.polynomial.hermite_e.hermegauss(k) for k in (2, 3)}
 
 
 def _vcg_expectation(lf, v, info):
     """E_r[J_f^T J_f] over the residual r ~ N(0, 1/icov) (complex: per part) == Fisher matrix.
-    3-point Gauss-Hermite per real component (exact up to degree 5; J^T J is quadratic in r)."""
+    Tensor Gauss-Hermite rule with 3 points per real component (exact up to degree 5), 2 points (exact up
+    to degree 3) for the 4 real components of a complex 2-pixel residual; the pull-back of the documented
+    transformation is quadratic in r, so both are exact on a correct tree."""
     ora, lay = lf.ora, lf.lay
     o, s, c = lay.slice(ora.kr)
     w = s * (2 if c else 1)
@@ -1119,10 +1121,11 @@ def _vcg_expectation(lf, v, info):
         return ["vcg:expectation_skipped_large"]
     _, iv = ora.split(v)
     sig = np.tile(iv ** -0.5, 2 if c else 1)
-    nodes, wts = _GH[0], _GH[1] / np.sum(_GH[1])
+    nn = 3 if w <= 3 else 2
+    nodes, wts = _GH[nn][0], _GH[nn][1] / np.sum(_GH[nn][1])
     f = lf.E.get_transformation()[1]
     acc = np.zeros((lay.size, lay.size))
-    for idx in np.ndindex(*([3] * w)):
+    for idx in np.ndindex(*([nn] * w)):
         vv = np.array(v)
         vv[o:o + w] = nodes[list(idx)] * sig
         Jd = dense_jac(f(ift.Linearization.make_var(lay.field(vv))).jac, lay)
@@ -1695,7 +1698,7 @@ SUBS = [
         rule=_nt("alpha default / scalar / field in [-3/4, 4], beta in [1/8, 8]")),
     Sub(name="categorical", check=check_leaf, strategy=leaf_recipes("categorical"), quick=300, thorough=8000, shards=2,
         rule=_nt("one-hot data, axis 0 / 1 / default on 1-D, 2-D and two-space domains, normalised input")),
-    Sub(name="varcov", check=check_leaf, strategy=leaf_recipes("vcg"), quick=300, thorough=6000, shards=3,
+    Sub(name="varcov", check=check_leaf, strategy=leaf_recipes("vcg"), quick=300, thorough=6000, shards=4,
         rule=_nt("VariableCovarianceGaussianEnergy real/complex, use_full_fisher default/True/False, both key "
                  "orders; includes the Gauss-Hermite expectation of the pull-back")),
     Sub(name="scaled", check=check_composite, strategy=composite_recipes("scaled"), quick=320, thorough=8000, shards=3,
